@@ -103,9 +103,10 @@ Observe(t, o, chg) ==
                        ![t].wr = IF chg = NoChg THEN @ ELSE Append(@, chg)]
 
 \* an operation of a transaction the checker has aborted fails with "aborted";
-\* the properties allow an abort at any time
+\* the properties allow an abort at any time. A transaction that runs into the per-transaction
+\* write limit is aborted as well ("limit"): nothing of it may become visible afterwards
 TrAborted == /\ l <= NLog /\ Ev.e \in {"Lookup", "Scan", "Output", "Update", "Delete"}
-             /\ Ev.res = "aborted" /\ l' = l + 1
+             /\ Ev.res \in {"aborted", "limit"} /\ l' = l + 1   \* "limit": write / read limit exceeded
              /\ Active(Ev.t) /\ tst[Ev.t].kind = "u"
              /\ tst' = [tst EXCEPT ![Ev.t].status = "dead"]
              /\ UNCHANGED <<S, hist, callC, phys, trigOff>>
@@ -171,6 +172,10 @@ TrCommit == /\ IsEvent("Commit")
                         IN  IF o.e \in {"Lookup", "Scan"} THEN Holds([o EXCEPT !.res = "ok"], v)
                             ELSE Holds(o, v)
                    /\ hist' = Append(hist, ApplyAll(Cur, wr))
+                   \* C07 / C08: key, unique and foreign key constraints hold in the new committed
+                   \* state (evaluated here, where the committed state changes, not at every step)
+                   /\ AllUnique(ApplyAll(Cur, wr), S)
+                   /\ FkIntegrity(ApplyAll(Cur, wr), S)
             /\ tst' = [tst EXCEPT ![Ev.t].status = "committed"]
             /\ UNCHANGED <<S, callC, phys, trigOff>>
 
